@@ -8,6 +8,8 @@
     - rigid maps [x |-> M x + t], [M^T M = I]: all distances and delay bins are preserved (c);
     - the geometric kernels: what is proved for each of them (d);
     - rescaling a wall's normal / up vector by positive factors changes no BRDF direction (e).
+    - the patch subdivision of a wall under the 48 signed axis permutations: the patches of the
+      image wall are the images of the patches, renumbered (f).
     NOT carried by any theorem (NOT_CARRIED in harness/props/C17.py): the 0.5 %-of-peak bound under
     axis permutations, float rounding, the Nusselt branch,
     [point_in_polygon] under rotations (the visibility statement is conditional on it).
@@ -20,6 +22,7 @@ From SV Require Import Base.Ops Base.OpsGeom Base.Arr Base.Sums Model.Vec3 Model
   Model.Frame Model.Tiling Model.PtSolution Model.Stokes Model.Visibility.
 From SV Require Import Spec.ExchangeSpec Spec.Isometry Proofs.SceneRefine Proofs.ReceiverProofs
   Proofs.PtSimilarity Proofs.FieldFacts Proofs.StokesSum Proofs.StokesSimilarity Proofs.TilingProofs
+  Proofs.TilingPerm
   Proofs.PlacementTranslate Proofs.PlacementRelabel Proofs.PlacementKernels Proofs.PlacementVisibility.
 
 (** (a) C17_translate.  Shift every patch centre, the source and the receiver by [t] and keep the
@@ -259,3 +262,39 @@ Theorem C17_normal_scale {T} {O : Ops T} {RL : RingLaws T} {OL : OrderLaws T} {F
   wall_dirs (vscale s n) (vscale s' u) dirs = wall_dirs n u dirs.
 Proof. exact (wall_dirs_scale s s' n u dirs). Qed.
 Print Assumptions C17_normal_scale.
+
+(** (f) C17_tiling_axis_permutation.  "Permuting the coordinate axes (and mirroring), which also
+    renumbers the patches": for each of the 48 maps
+    [m v = (e0 * v[sigma 0], e1 * v[sigma 1], e2 * v[sigma 2])] and every wall of C08's domain
+    ([wall_ok]: in a coordinate plane, both in-plane extents at least the patch size [p > 0]) the
+    image wall is again such a wall (flat axis [f'] with [sigma f' = f], flat coordinate
+    [e_f' * c]), it has the same number of patches, and the list of patches the subdivision makes
+    of the image wall -- in both engines -- is a PERMUTATION of the images of the wall's patches,
+    each with its four vertices reordered by one fixed [reorder o] (one of the 8 orders of a
+    rectangle; the same [o] for all patches of the wall).  Hence also: seen as vertex sets, the
+    patches of the image wall are, up to a renumbering, the images of the patches.
+    Ordered field with floor (exact arithmetic; the mirrored cell edges are computed from the new
+    minimum).  The explicit index map is [C08_axis_permutation_index]. *)
+Theorem C17_tiling_axis_permutation {T} {O : Ops T} {RL : RingLaws T} {OL : OrderLaws T}
+    {FL : FieldLaws T} {FlL : FloorLaws T} (sigma : nat -> nat) (e0 e1 e2 : T) (q : @Tiling.quad T) p f c :
+  Permutation [sigma 0; sigma 1; sigma 2] [0; 1; 2] ->
+  (e0 = 1 \/ e0 = - (1))%T -> (e1 = 1 \/ e1 = - (1))%T -> (e2 = 1 \/ e2 = - (1))%T ->
+  wall_ok q p f c ->
+  let m := fun v : @vec T =>
+    mkv (e0 * coord (sigma 0%nat) v)%T (e1 * coord (sigma 1%nat) v)%T (e2 * coord (sigma 2%nat) v)%T in
+  let e := fun d : nat => match d with 0 => e0 | 1 => e1 | _ => e2 end in
+  (exists f' o, f' < 3 /\ sigma f' = f /\ o < 8 /\
+     wall_ok (map_quad m q) p f' (e f' * c)%T /\
+     total_number_of_patches (map_quad m q) p = total_number_of_patches q p /\
+     Permutation (create_patches (map_quad m q) p)
+                 (map (fun Q => reorder o (map_quad m Q)) (create_patches q p)) /\
+     Permutation (kang_patches (map_quad m q) p)
+                 (map (fun Q => reorder o (map_quad m Q)) (kang_patches q p))) /\
+  (exists L, Permutation (create_patches (map_quad m q) p) L /\
+     Forall2 (fun Q' Q => Permutation (verts Q') (map m (verts Q))) L (create_patches q p)).
+Proof.
+  exact (fun Hp H0 H1 H2 Hok =>
+           conj (tiling_signed_perm_both sigma e0 e1 e2 Hp H0 H1 H2 q p f c Hok)
+                (tiling_signed_perm_vertices sigma e0 e1 e2 Hp H0 H1 H2 q p f c Hok)).
+Qed.
+Print Assumptions C17_tiling_axis_permutation.
